@@ -68,6 +68,7 @@ func TestC11_Rapid(t *testing.T) {
 		rec.Case("retransmission", histSig(c), c11Nontrivial(e), func() any { return c })
 		if e != nil {
 			rec.Count("retransmissions", int64(e.st.retransmissions))
+			rec.Count("due_but_not_acted_on", int64(e.st.lazy))
 		}
 
 		return c, err
